@@ -98,7 +98,7 @@ func idOf(line []byte) string {
 }
 
 func run(c *Ctx) {
-	c.Res.Rule = "programs of the C01 generator (default global settings, no trace marks), each tagged with a unique id field; payload classes: ordinary, > 500 bytes (pooled buffer grows), > 64 KiB (buffer not returned to the pool); first run alone (reference, model-checked), then every program `rounds` times from G in {2,4,16} goroutines through loggers derived from shared parents into one checksumming/delaying/blocking writer; programs a hook or the chain discards stay in the concurrent mix (must write nothing); plus SyncWriter over a non-reentrant writer and the global logger; plus directed sweeps (directed.go): a table of 28 call chains (13 leave per-event state on the pooled Event: stack flag, skip-frame count, context, hooks, Disabled level, grown / oversized buffer; 15 draw pooled events outside a Logger: prebuilt / nested Dict, scratch events of Fields / Errs / Array.Err / Array.Object / Context.Object, Dict().Caller(), GetCtx) under a configured ErrorStackMarshaler, every state-leaving chain run 1..2 times before every other chain on emptied pools (sequential histories) and the whole table from 4 and 16 goroutines, each line compared with the chain alone on emptied pools; scripted schedules under GOMAXPROCS(1): goroutine A parked inside a hook of its event (9 hook orders over discard / add-field / park) while goroutine B completes 1..2 events, or starts an event before and finishes it after A resumes (12 modes); 60 generated programs under Settings with a stack marshaler (a third with Stack().Err, a third with errors inside Dict / Fields / Array) run alone on emptied pools, sequentially with history and from 8 goroutines; faults on the way to the destination (faults.go): 5 pipelines (Logger, SyncWriter, ConsoleWriter plain / with FormatPrepare+FormatFieldValue+FormatExtra, SyncWriter over that) x one event that meets a fault (the destination answers (0,err) / (n/2,err) / (n/2,nil) / (0,nil) / (n,err); a formatter fails before / after rendering or panics and is recovered) after 0 / 2 warm events, followed by two events through the same pipeline and one through a second pipeline sharing only the package pools, every Write compared with the event alone on emptied pools; the same pipelines from 6 goroutines into a destination refusing every 4th call; a BasicSampler{1,2,3,5} shared by a logger, a child and a copy from 8 goroutines (one intact Write per admitted event); race detector on. Non-trivial = program with nesting (Dict/Array/Object/hooks) or a grown buffer"
+	c.Res.Rule = "programs of the C01 generator (default global settings, no trace marks), each tagged with a unique id field; payload classes: ordinary, > 500 bytes (pooled buffer grows), > 64 KiB (buffer not returned to the pool); first run alone (reference, model-checked), then every program `rounds` times from G in {2,4,16} goroutines through loggers derived from shared parents into one checksumming/delaying/blocking writer; programs a hook or the chain discards stay in the concurrent mix (must write nothing); plus SyncWriter over a non-reentrant writer and the global logger; SyncWriter closed while goroutines log (closers.go: a destination whose Write / WriteLevel / Close count the calls in progress and take time; 5 pipelines - over an io.Writer, over a LevelWriter, nested, closed through a MultiLevelWriter, over a ConsoleWriter - x 4 scripts - Close inside the destination before the loggers start, a Write inside the destination before Close and the other loggers start, two closers, free-running - x 1|4 logging goroutines: no overlapping calls, every event exactly once as run alone); plus directed sweeps (directed.go): a table of 28 call chains (13 leave per-event state on the pooled Event: stack flag, skip-frame count, context, hooks, Disabled level, grown / oversized buffer; 15 draw pooled events outside a Logger: prebuilt / nested Dict, scratch events of Fields / Errs / Array.Err / Array.Object / Context.Object, Dict().Caller(), GetCtx) under a configured ErrorStackMarshaler, every state-leaving chain run 1..2 times before every other chain on emptied pools (sequential histories) and the whole table from 4 and 16 goroutines, each line compared with the chain alone on emptied pools; scripted schedules under GOMAXPROCS(1): goroutine A parked inside a hook of its event (9 hook orders over discard / add-field / park) while goroutine B completes 1..2 events, or starts an event before and finishes it after A resumes (12 modes); 60 generated programs under Settings with a stack marshaler (a third with Stack().Err, a third with errors inside Dict / Fields / Array) run alone on emptied pools, sequentially with history and from 8 goroutines; faults on the way to the destination (faults.go): 5 pipelines (Logger, SyncWriter, ConsoleWriter plain / with FormatPrepare+FormatFieldValue+FormatExtra, SyncWriter over that) x one event that meets a fault (the destination answers (0,err) / (n/2,err) / (n/2,nil) / (0,nil) / (n,err); a formatter fails before / after rendering or panics and is recovered) after 0 / 2 warm events, followed by two events through the same pipeline and one through a second pipeline sharing only the package pools, every Write compared with the event alone on emptied pools; the same pipelines from 6 goroutines into a destination refusing every 4th call; children of one shared parent derived with a hook inside the goroutine that uses them (hookkids.go: 11 parents - 0..7 hooks added one call at a time, three in one call, a With().Timestamp() hook, an Output copy - x 6 derivations - Hook / With().Logger().Hook / Level().Hook / Hook(h,h2) / With().Timestamp().Logger().Hook / Hook().Hook - x 6 goroutines, all children made before the first logs; every line as the chain run alone); a BasicSampler{1,2,3,5} shared by a logger, a child and a copy from 8 goroutines (one intact Write per admitted event); race detector on. Non-trivial = program with nesting (Dict/Array/Object/hooks) or a grown buffer"
 	c.OpenShards("From Verif Require Import Base.Prelude Base.Decimal Enc.JsonEnc Misc.Level Api.Exec Harness.C01H Harness.C06H.", "c01_case * option bytes", "mismatches c06_run c06_eqb", 30)
 	nprog := 120
 	rounds := 3
@@ -382,6 +382,8 @@ func run(c *Ctx) {
 		}
 		c.Res.Evaluations += 2400
 	}
+	// ---- SyncWriter being closed while goroutines log: Write / WriteLevel / Close of the destination never overlap (closers.go) ----
+	syncWriterClosers(c)
 	// ---- children of one shared parent, one per goroutine; parent contexts below and above the 500-byte buffer ----
 	{
 		zerolog.SetGlobalLevel(zerolog.Level(-128))
@@ -439,6 +441,8 @@ func run(c *Ctx) {
 		}
 		zerolog.SetGlobalLevel(zerolog.DebugLevel)
 	}
+	// ---- children of one shared parent derived with Hook() inside the goroutines that use them (hookkids.go) ----
+	sharedParentHookChildren(c)
 	// ---- a ConsoleWriter in front of the shared destination: what it hands to Out stays intact until Out.Write returns ----
 	{
 		const G, N = 8, 60
